@@ -135,12 +135,14 @@ class HarnessTimeout(Exception):
 TIMEOUTS = []
 
 
-def run_both(lines, mode, variant="f64", timeout=1200):
+def run_both(lines, mode, variant="f64", timeout=1200, nospec=False):
     """run the same command text through the harness and through the model"""
     text = "\n".join(lines) + "\n"
     hmode = "exact" if mode == "exact" else "float"
     mmode = {"exact": "exact", "float": "float", "f32": "f32"}[mode if variant != "f32" or mode == "exact" else "f32"]
-    pm = subprocess.run([MODEL_BIN, mmode], input=text, stdout=subprocess.PIPE, stderr=subprocess.PIPE,
+    # `nospec`: the model without the forward-mode reference (families whose cases are too large for one
+    # reference evaluation per input element; implementation and model are still compared line by line)
+    pm = subprocess.run([MODEL_BIN, mmode] + (["nospec"] if nospec else []), input=text, stdout=subprocess.PIPE, stderr=subprocess.PIPE,
                         universal_newlines=True, timeout=400)
     try:
         pi = subprocess.run([harness_bin(variant), hmode], input=text, stdout=subprocess.PIPE, stderr=subprocess.PIPE,
@@ -362,7 +364,7 @@ def split_spec(line):
 def compare_case(cmds, impl, model, mode, tol, bits=50, view="full"):
     """returns list of findings for one case: (kind, cmd_index, impl_line, model_line, spec).
     Lines are compared through the property's view: what the view drops cannot raise an alarm."""
-    nf_ok = view.endswith("+nf")      # families without arithmetic: non-finite values are ordinary data
+    nf_ok = "+nf" in view             # families without arithmetic: non-finite values are ordinary data
     vf = VIEWS[view.split("+")[0]]
     out = []
     n = min(len(impl), len(model))
@@ -416,7 +418,7 @@ def run_cases(cases, mode, variant, tol, view="full"):
         lines.extend(c.lines)
         spans.append((start, len(lines)))
     try:
-        impl, model, rci, rcm, ei, em = run_both(lines, mode, variant, timeout=(6 if len(cases) == 1 else 30))
+        impl, model, rci, rcm, ei, em = run_both(lines, mode, variant, timeout=(6 if len(cases) == 1 else 30), nospec=("+nospec" in view))
     except HarnessTimeout:
         # the implementation did not finish although the model did: find the case(s), one by one
         if len(cases) == 1:
@@ -685,8 +687,9 @@ def main():
         if cases and len(samples) < 6:
             c = cases[len(cases) // 2]
             try:
-                impl, model, *_ = run_both(["case"] + c.lines, mode, variant, timeout=10)
-                samples.append({"family": name, "mode": mode, "commands": c.lines[:12], "impl": impl[1:13], "model": model[1:13]})
+                impl, model, *_ = run_both(["case"] + c.lines, mode, variant, timeout=10, nospec=("+nospec" in view))
+                cut = lambda ls: [l if len(l) <= 400 else l[:400] + " ...(%d characters)" % len(l) for l in ls]
+                samples.append({"family": name, "mode": mode, "commands": cut(c.lines[:12]), "impl": cut(impl[1:13]), "model": cut(model[1:13])})
             except HarnessTimeout:
                 samples.append({"family": name, "mode": mode, "commands": c.lines[:12], "impl": ["<timeout>"], "model": []})
         corr[name] = stats
